@@ -28,7 +28,7 @@ def variants(ftype, ids, tier):
 
 def judge_variant(ftype, fname, body, code, exp_line):
     pre, npre, pretext = progrun.pre_tokens(ftype, fname)
-    r = impl.run_text(fname, body, pre_tokens=pre, line0=npre + 1)
+    r = impl.run_text(fname, body, pre_tokens=pre, line0=npre + 1, pretext=pretext)
     if r.exc is not None:
         return f"exception:{r.exc[0]}", r
     hit = any(d[0] == "Error" and d[1] == code and d[2] in exp_line for d in r.diags)
